@@ -124,7 +124,7 @@ def _observe(parser, opcode, probe, optype, noarg):
     except Exception:
         return 'ERR'
     if not r or r[0].op != opcode or r[0].offset != 0:
-        raise RuntimeError('gen_c12: parse_expr did not return the probed operation first: %r' % (r[:1],))
+        raise RuntimeError('gen_c12: parse_expr did not return the probed operation first at offset 0: %s' % repr(r[:1])[:300])
     if any(x.op not in noarg or x.args != [] for x in r[1:]):
         return 'ERR'        # same convention as _ref: what follows the operands must be operand-less operations
     consumed = (r[1].offset if len(r) > 1 else 1 + len(probe)) - 1
@@ -143,7 +143,7 @@ def _probes():
     rng = random.Random(0xC12)
     def rnd(n):
         return bytes(rng.choice(ALPHABET) for _ in range(n))
-    tail = bytes([0x31 + (i % 0x3f) for i in range(80)])          # 0x31 .. 0x6f : DW_OP_lit1.. / reg
+    tail = bytes([0x31 + (i % 0x3f) for i in range(56)])          # 0x31 .. 0x6f : DW_OP_lit1.. / reg
     hi = bytes([0xf0, 0xe0, 0x9f, 0x96, 0x9c, 0xf0, 0x96, 0x9f, 0xe0])
     P = [
         b'',
@@ -163,13 +163,13 @@ def _probes():
         b'\x31\x32\x33\x34',
         b'\x31\x32\x33\x34\x35\x36\x37\x38',
     ]
-    P.append(b'\x31\x96' + tail + tail)   # 1-byte length >= 0x80 (TYPEDBLOCK) vs a ULEB128 length
-    P += [rnd(40) for _ in range(24)]
-    # a tag / small length after a first operand of 1, 2, 3, 4 or 8 bytes
-    for n in (1, 2, 3, 4, 8):
+    P.append(b'\x31\x96' + tail * 3)   # 1-byte length >= 0x80 (TYPEDBLOCK) vs a ULEB128 length
+    P += [rnd(24) for _ in range(12)]
+    # a tag / small length after a first operand of 1 or 2 bytes
+    for n in (1, 2):
         for tag in (0, 1, 2, 3):
-            P.append(bytes(rng.choice([0x31, 0x32, 0x41, 0x55, 0x6f]) for _ in range(n)) + bytes([tag]) + rnd(30))
-            P.append(rnd(n - 1) + bytes([rng.choice([0x31, 0x41, 0x6f]), tag]) + rnd(30))
+            P.append(bytes(rng.choice([0x31, 0x32, 0x41, 0x55, 0x6f]) for _ in range(n)) + bytes([tag]) + rnd(16))
+            P.append(rnd(n - 1) + bytes([rng.choice([0x31, 0x41, 0x6f]), tag]) + rnd(16))
     return P
 
 
